@@ -5,9 +5,9 @@
 #include <sys/stat.h>
 
 enum { SW_LOCALS, SW_BLOCKLOCALS, SW_LIT, SW_STRINGS, SW_FUNCS, SW_GLOBALS, SW_INHERITS, SW_CLASSES, SW_MEMBERS, SW_SWITCH, SW_INCDEPTH, SW_IFDEPTH, SW_EXPAND, SW_LINELEN, SW_NEST, SW_LITERAL,
-  SW_CODESIZE, SW_OVERRIDE, SW_NFAM };
+  SW_CODESIZE, SW_OVERRIDE, SW_MANYLITS, SW_SWITCHSTR, SW_NFAM };
 static const char *famname[] = { "locals", "blocklocals", "funlit", "strings", "functions", "globals", "inherits", "classes", "members", "switch", "include-depth", "if-depth",
-  "macro-expansions", "line-length", "nesting", "literal", "code-size", "override" };
+  "macro-expansions", "line-length", "nesting", "literal", "code-size", "override", "many-funlits", "switch-string-sizes" };
 typedef struct { int fam, a, b, c, d; } scase;
 static scase *cases; static long ncases, capcases;
 static void add (int fam, int a, int b, int c, int d) {
@@ -108,6 +108,12 @@ void sweep_prepare (int thorough) {
     for (int tgt = 65526; tgt <= 65544; tgt++) add (SW_CODESIZE, kind, tgt, 0, 0);
   }
   for (int k = 253; k <= 259; k++) add (SW_OVERRIDE, k, 0, 0, 0);
+  /* counters that are 16 bits wide: k function literals closed inside a function whose local is named like an efun */
+  for (int k = 65533; k <= 65537; k++) add (SW_MANYLITS, k, 0, 0, 0);
+  for (int k = 32766; k <= 32769; k++) add (SW_MANYLITS, k, 0, 0, 0);
+  add (SW_MANYLITS, 1, 0, 0, 0); add (SW_MANYLITS, 300, 0, 0, 0);
+  /* string-switch tables are sorted by the labels' addresses: labels of very different lengths live far apart */
+  for (int k = 2; k <= 8; k++) for (int order = 0; order < 2; order++) add (SW_SWITCHSTR, k, order, 0, 0);
   if (thorough) {
     around (SW_STRINGS, 32767, 0, 0, 0); around (SW_STRINGS, 65535, 0, 0, 0);
     around (SW_FUNCS, 32767, 0, 0, 0); around (SW_FUNCS, 65535, 0, 0, 0);
@@ -333,6 +339,21 @@ int sweep_gen (long idx, sb_t *o, char *desc, size_t dlen) {
     if (ns < 0) { ns = (c.b - base) / s; np = 0; }
     cs_program (o, c.a, ns, np);
     snprintf (desc, dlen, "code-size kind=%d target=%d (%d*%d+%d*%d+%d)", c.a, c.b, ns, s, np, p, base);
+    break;
+  }
+  case SW_MANYLITS:
+    sb_puts (o, "mixed f() {\n  int strlen, sizeof, implode;\n  return ({\n");
+    for (int i = 0; i < c.a; i++) sb_puts (o, (i & 7) == 7 ? "function(){},\n" : "function(){},");
+    sb_puts (o, "\n  });\n}\n");
+    break;
+  case SW_SWITCHSTR: {
+    static const int lens[] = { 1, 20, 100, 400, 1500, 6000, 30000, 3 };
+    sb_puts (o, "int f(string s) {\n  switch (s) {\n");
+    for (int i = 0; i < c.a; i++) {
+      int j = c.b ? c.a - 1 - i : i;
+      sb_puts (o, "  case \""); sb_printf (o, "k%d", j); repc (o, 'a' + j, lens[j]); sb_printf (o, "\": return %d;\n", j);
+    }
+    sb_puts (o, "  }\n  return -1;\n}\n");
     break;
   }
   case SW_OVERRIDE:
